@@ -8,7 +8,6 @@ from ..core import Prop, Violation
 from ._coord import (CoordMixin, gen_cfg, gen_exec, gen_multi_kill, gen_ended_in_callback, gen_two_systems, gen_nest,
                      gen_cnest, cnest_table, gen_tracked, request_kind_table, CP_SCRIPTS, DAY, HOUR)
 
-FINDING = "C14-work-after-kill-in-g1-checkpoint"
 
 
 class C14(CoordMixin, Prop):
@@ -21,7 +20,7 @@ class C14(CoordMixin, Prop):
     all_branches = ["cell:ok", "cell:blocked", "cell:post-raise", "x:blocked", "x:unknown", "x:reentrant", "x:preempted", "x:cp0-fail", "x:cp1-fail", "x:cp2-fail",
                     "x:cp3-fail", "x:work-raise", "x:val-fail", "x:commit", "acq:acquired", "acq:blocked",
                     "acq:reentrant", "acq:preempted", "rel:0", "rel:1", "wd:timeout", "wd:deadlock", "wd:starvation", "x:killed-in-work",
-                    "x:cp-act", "x:val-act", "x:work-while-unlisted"]
+                    "x:cp-act", "x:val-act", "x:ended-before-work"]
     assumptions = [
         "an operation id is not started again while an operation with that id is still active (id reuse replaces "
         "the context object and is outside the property's quantifier; the oracle stops judging a history there)",
@@ -34,10 +33,6 @@ class C14(CoordMixin, Prop):
     ]
     trusted_modelled = ["modelled, not verified: ResourceLock, CellCycleController, Watchdog, PriorityInheritance, "
                         "CoordinationSystem.execute_operation as Operon.Coord.* (Model/Coord*.lean)"]
-
-    def __init__(self):
-        super().__init__()
-        self._attr = {}
 
     def extract(self, ctx):
         from ..extract import py2lean_coord, exec_probe, watchdog_probe
@@ -202,20 +197,9 @@ class C14(CoordMixin, Prop):
 
     # --- oracle: the property text on the implementation's observations ------------------------------------
     def oracle(self, case, obs, extra):
-        out = self._oracle(case, obs, extra)
-        # open finding: the operation was ended from inside its own G1 -> S checkpoint callback (observed: it was no
-        # longer in active_operations when that callback returned) and work_fn then ran without the resources.  Only
-        # that clause, on that line, is attributable.
-        ok = bool(out)
-        for v in out:
-            info = extra[v.at].get("info", {}) if 0 <= v.at < len(extra) else {}
-            if not (v.clause == "work_only_with_all_resources" and 1 in info.get("ended_in_cp", [])):
-                ok = False
-        self._attr[tuple(case["lines"])] = ok
-        return out
-
-    def trigger(self, case):
-        return FINDING if self._attr.get(tuple(case["lines"])) else None
+        # no open finding: `C14-work-after-kill-in-g1-checkpoint` (work_fn ran after the operation had been ended from
+        # inside its G1 -> S checkpoint callback) is repaired in /repo (76fe363); nothing is excused any more
+        return self._oracle(case, obs, extra)
 
     def _oracle(self, case, obs, extra):
         out = []
